@@ -371,7 +371,7 @@ def seq_case(draw, tier):
             v = -v
         items.append([kind, v])
     return {'items': items, 'prefix': draw(st.text('01', max_size=10)), 'cut': draw(st.integers(0, 6)) if draw(st.integers(0, 2)) == 0 else 0,
-            'cls': draw(st.sampled_from(['ConstBitStream', 'BitStream'])), 'mode': draw(st.sampled_from(['read', 'readlist', 'unpack', 'readlist_str', 'mixed', 'dtype_objects', 'read_dtype_objects', 'peek_edit_read', 'peek_edit_read'])),
+            'cls': draw(st.sampled_from(['ConstBitStream', 'BitStream'])), 'mode': draw(st.sampled_from(['read', 'readlist', 'unpack', 'readlist_str', 'mixed', 'dtype_objects', 'read_dtype_objects', 'peek_edit_read', 'peek_edit_read', 'kw_names'])),
             'opt_ba': draw(st.sampled_from([False, False, True]))}
 
 
@@ -471,6 +471,26 @@ def run_seq(case):
             require(not is_raised(got) and got == want, 'read(Dtype object) in a sequence differs', i=i, got=got, expected=want, scale=sc)
             require(s.pos == r[1], 'pos did not advance by exactly one codeword', i=i, pos=s.pos, expected=r[1])
             pos = r[1]
+    elif mode == 'kw_names' and not any(e == TRUNC for e in exp):
+        # a keyword whose name looks like the tail of a code name ('e', 'ie', 'se' ...) next to the codes: the codes are still the codes
+        for kwname in ('e', 'ie', 'se', 'n', 'ue', 'i'):
+            extra = format((len(data) * 37 + 5) % 256, '08b')
+            src = bs.ConstBitStream(bin=data[p0:] + extra)
+            fmt2 = ', '.join(kinds) + f', uint:{kwname}'
+            want = [e[0] for e in exp] + [int(extra, 2)]
+            for how in ('unpack', 'readlist', 'peeklist'):
+                src.pos = 0
+                got = attempt(getattr(src, how), fmt2, **{kwname: 8})
+                require(not is_raised(got) and got == want, f'{how} with a keyword length named {kwname!r} next to exp-Golomb tokens differs from the sequence', got=got if is_raised(got) else got[:8],
+                        expected=want[:8], fmt=fmt2)
+    elif mode == 'dtype_objects' and any(e == TRUNC for e in exp):
+        # a list of Dtype objects over a sequence whose last code is cut: ReadError, and the position stays where it was
+        ds = [bs.Dtype(k) for k in kinds]
+        for how in ('readlist', 'peeklist'):
+            s.pos = p0
+            got = attempt(getattr(s, how), ds)
+            require(is_raised(got, bs.ReadError), f'{how}(list of Dtype objects) over a truncated sequence must raise ReadError', got=got)
+            require(s.pos == p0, f'failed {how}(list of Dtype objects) moved pos', pos=s.pos, expected=p0)
     elif mode == 'dtype_objects' and not any(e == TRUNC for e in exp):
         # lists of Dtype objects: first every code scaled by 4, then the plain dtypes, then scaled by 0.5 - each call stands for itself
         for sc in (4, None, 0.5, None):
